@@ -61,6 +61,10 @@ def _cells():
     cells.append(np.array([[4.0, 0, 0], [0, 2.0, 0], [0, 0, 8.0]]))             # power of two
     cells.append(np.eye(3))                                                      # default unit box
     cells.append(chol_from_params(3.7, 4.1, 5.9, 81, 97, 112) @ rot([1, 2, 3], 37.0).T)  # rotated, not LAMMPS
+    # near-duplicates: a cell 1e-6 (relative) away from another menu cell / from the default unit box must be a different
+    # state (re-defining a live Box with a minutely strained cell, the stated rounding bound being 1e-8)
+    cells.append(chol_from_params(3.3, 3.3, 3.3, 90, 90, 90) * np.array([[1 + 2e-6], [1 - 3e-6], [1 + 1e-6]]))
+    cells.append(np.diag([1.000004, 0.999997, 1.000002]))
     # seed-dependent generic slice (each again enumerated completely)
     s = SEED % 8
     cells.append(chol_from_params(3.0 + 0.37 * s, 4.3 - 0.21 * s, 5.2 + 0.13 * s,
